@@ -20,7 +20,7 @@ CHECK = {
             "harness": ["connectconformance/c03_test.go"],
             "test": "^TestVerifC03$",
             "shards": {"quick": 16, "thorough": 16},
-            "budget_s": {"quick": 40, "thorough": 500},
+            "budget_s": {"quick": 60, "thorough": 540},
         },
     ],
 }
